@@ -602,6 +602,16 @@ fn run_all(ctx: &Ctx) -> i32 {
     for (name, text) in nesting_family() {
         texts.push((format!("nesting:{}", name), text));
     }
+    // captured strings of every shape (quotes of both kinds, non-ASCII, backslash, line break): the
+    // function is rendered, validated and serialised by the value stages
+    {
+        let alpha = ['a', '\u{e9}', '\u{1f600}', '\'', '"', '\\', '\n'];
+        for w in words(&alpha, 3).into_iter().filter(|w| !w.is_empty()) {
+            let st: String = w.into_iter().collect();
+            let e = crate::c14::str_src(&st);
+            texts.push(("captured-strings".into(), format!("q = {}\nf = x => [x, q]\nr = {{[q]: [q]}}\ng = () => r\nto_string(f) + to_string(g)", e)));
+        }
+    }
     // loops whose length comes from the input
     for t in ["1e15!", "9007199254740992!", "170!", "171!", "[1e15]!", "range(1e15)", "range(0, 4294967296)", "round(1, 1e15)", "round(1e300, 400)", "random(1e30)", "chunk([1], 1e30)", "slice([1], 0, 1e30)", "[1, 2][1e30]", "\"ab\"[(-1e30)]", "2 ^ 1e30", "1e308 * 10", "0 / 0", "format(\"{}{}{}\", 1)", "format(\"{\", 1)", "format(\"{0}{9}\", 1)", "split(\"abc\", \"\")", "replace(\"aaa\", \"\", \"b\")", "to_number(\"1e999\")", "to_number(\" 1\")", "convert(1, \"\", \"\")"] {
         texts.push(("extras".into(), t.to_string()));
@@ -612,7 +622,7 @@ fn run_all(ctx: &Ctx) -> i32 {
     }
     ctx.set("source_texts", json!(texts.len()));
     for (fam, t) in &texts {
-        let family: &'static str = if fam == "extras" { "extras" } else if fam.starts_with("corpus") { "corpus" } else if fam.starts_with("nesting") { "nesting" } else if fam.starts_with("tokens") { "tokens" } else if fam == "tree" { "tree" } else { "chars" };
+        let family: &'static str = if fam == "extras" { "extras" } else if fam == "captured-strings" { "captured" } else if fam.starts_with("corpus") { "corpus" } else if fam.starts_with("nesting") { "nesting" } else if fam.starts_with("tokens") { "tokens" } else if fam == "tree" { "tree" } else { "chars" };
         cases.push(CaseSpec { family, class: fam.clone(), display: t.clone(), request: json!({"t": "src", "s": t}) });
     }
     // ---- (d) JSON inputs
